@@ -257,8 +257,13 @@ class Job:
                 f'Job was not completed successfully. Instead had status: {self.status()}'
             )
 
+        # Whether this job is a batch is a fact about the job (its metadata lists the circuits'
+        # measurements), not about whichever job the client created last.
         backend_results = self._client.get_results(
-            job_id=self.job_id(), sharpen=sharpen, extra_query_params=extra_query_params
+            job_id=self.job_id(),
+            sharpen=sharpen,
+            extra_query_params=extra_query_params,
+            batch_mode='measurements' in self._job.get('metadata', {}),
         )
 
         # is this a batch run (dict-of-dicts) or a single circuit?
